@@ -30,6 +30,7 @@ import (
 	"github.com/btcsuite/btcd/btcec/v2"
 	"github.com/btcsuite/btclog/v2"
 	"github.com/btcsuite/btcd/btcutil/v2"
+	"github.com/btcsuite/btcd/wire/v2"
 	"github.com/lightningnetwork/lnd/channeldb"
 	"github.com/lightningnetwork/lnd/htlcswitch/hop"
 	"github.com/lightningnetwork/lnd/internal/verif/vstats"
@@ -177,7 +178,7 @@ func c08DrawPlan(t *rapid.T) *c08Plan {
 			c08KindHoldSettle, c08KindHoldSettle, c08KindHoldCancel,
 		}).Draw(t, l+"kind")
 		x.FeeDelta = rapid.SampledFrom([]int64{
-			0, 0, 0, 0, 0, 0, -1, 1, 777, -1000,
+			0, 0, 0, 0, 0, 0, 0, -1, 1, 777, -1000, -5000,
 		}).Draw(t, l+"feeDelta")
 		x.CltvDefect = rapid.SampledFrom([]uint32{
 			0, 0, 0, 0, 0, 0, 0, 0, 0, 1,
@@ -288,7 +289,13 @@ type c08Run struct {
 
 	mu        sync.Mutex
 	linkFails []string
+	resumed   map[string]bool // links past resumeLink in this phase
 	stopping  atomic.Bool
+
+	// a restart found a forwarding package with an acked add below an
+	// unacked one (see known finding C08-fwdpkg-index-shift)
+	shiftExposed bool
+	stuck        string
 
 	phase        int
 	restartHits  []int
@@ -296,6 +303,9 @@ type c08Run struct {
 	deadline     time.Duration
 	grace        time.Duration
 	idleGap      time.Duration
+	stuckIdle    time.Duration
+	nudgeIdle    time.Duration
+	nudges       int
 
 	startBal [4]lnwire.MilliSatoshi // a2b, b2a, b2c, c2b local balances
 }
@@ -349,6 +359,9 @@ func (r *c08Run) startNetwork(chans [4]*lnwallet.LightningChannel) bool {
 		bob.intersect(r.tap.interceptor("bob"))
 		carol.intersect(r.tap.interceptor("carol"))
 	}
+	r.mu.Lock()
+	r.resumed = make(map[string]bool)
+	r.mu.Unlock()
 	r.n = newThreeHopNetwork(
 		r.tb, chans[0], chans[1], chans[2], chans[3],
 		testStartingHeight, opt,
@@ -371,6 +384,11 @@ func (r *c08Run) startNetwork(chans [4]*lnwallet.LightningChannel) bool {
 			}
 			r.noteLinkFail(fmt.Sprintf("phase %d %s: %v", r.phase,
 				name, e.Error()))
+		}
+		l.cfg.NotifyActiveChannel = func(wire.OutPoint) {
+			r.mu.Lock()
+			r.resumed[name] = true
+			r.mu.Unlock()
 		}
 		// The fixture shares one mock obfuscator (with a mutable
 		// field) between all links.
@@ -530,6 +548,29 @@ func (r *c08Run) launch(p *c08Pay) error {
 	return nil
 }
 
+// nudge launches one doomed (unknown hash) payment per direction.
+func (r *c08Run) nudge() error {
+	for dir := 0; dir < 2; dir++ {
+		i := len(r.pays)
+		p := &c08Pay{
+			plan: &c08PayPlan{
+				Dir: dir, Class: "nudge", Kind: c08KindUnknown,
+				Amt:   lnwire.MilliSatoshi(7_000_000 + i),
+				Phase: r.phase,
+			},
+			ix: i, pid: uint64(1000 + i),
+		}
+		p.pre = c08Hash(r.plan.Seed, "pre", i)
+		p.hash = sha256.Sum256(p.pre[:])
+		r.pays = append(r.pays, p)
+		if err := r.launch(p); err != nil {
+			return err
+		}
+	}
+
+	return nil
+}
+
 // requery is called after a restart, before the new network is started.
 func (r *c08Run) requery() {
 	for _, p := range r.pays {
@@ -685,6 +726,94 @@ func c08InFlight(chans [4]*lnwallet.LightningChannel) int {
 	return n
 }
 
+// c08ShiftExposed reports whether some forwarding package that will be
+// reprocessed has an acked add below an unacked one.
+func c08ShiftExposed(chans [4]*lnwallet.LightningChannel) bool {
+	for _, c := range chans {
+		pkgs, err := c.LoadFwdPkgs()
+		if err != nil {
+			continue
+		}
+		for _, pkg := range pkgs {
+			if pkg.AckFilter == nil || pkg.AckFilter.IsFull() {
+				continue
+			}
+			acked := false
+			for i := range pkg.Adds {
+				if pkg.AckFilter.Contains(uint16(i)) {
+					acked = true
+				} else if acked {
+					return true
+				}
+			}
+		}
+	}
+
+	return false
+}
+
+// stuckForward looks for a forwarded HTLC that can structurally never be
+// resolved any more: Bob holds a half-open circuit that was loaded from disk
+// (so no packet for it sits in a mailbox), the incoming link has finished
+// resuming (forwarding packages were reprocessed; this is the only place that
+// re-forwards or fails such an add), Bob owes no commitment on the incoming
+// channel (no fail on its way) and the wire has been silent for a long
+// time. This is not a timing verdict: nothing in the node will ever touch the
+// HTLC again before it expires.
+func (r *c08Run) stuckForward() string {
+	_, since := r.tap.snapshot()
+	if since < r.stuckIdle {
+		return ""
+	}
+	cm, ok := r.n.bobServer.htlcSwitch.circuits.(*circuitMap)
+	if !ok {
+		return ""
+	}
+	type half struct {
+		in   CircuitKey
+		hash [32]byte
+	}
+	var halves []half
+	cm.mtx.RLock()
+	for k, c := range cm.pending {
+		if k.ChanID != hop.Source && !c.HasKeystone() && c.LoadedFromDisk {
+			halves = append(halves, half{k, c.PaymentHash})
+		}
+	}
+	cm.mtx.RUnlock()
+	for _, h := range halves {
+		name, link := "bob first", r.n.firstBobChannelLink
+		if h.in.ChanID == r.n.secondBobChannelLink.ShortChanID() {
+			name, link = "bob second", r.n.secondBobChannelLink
+		}
+		r.mu.Lock()
+		resumed := r.resumed[name]
+		r.mu.Unlock()
+		if !resumed || link.channel.OweCommitment() {
+			continue
+		}
+		active := false
+		for _, htlc := range link.channel.ActiveHtlcs() {
+			if htlc.Incoming && htlc.HtlcIndex == h.in.HtlcID {
+				active = true
+			}
+		}
+		if !active {
+			continue
+		}
+
+		return fmt.Sprintf("incoming HTLC %v (%x) at bob is left "+
+			"dangling: its circuit is half-open and loaded from disk "+
+			"(outgoing add lost with the restart), the incoming link "+
+			"finished reprocessing its forwarding packages without "+
+			"re-forwarding or failing it, nothing is pending and the "+
+			"wire has been silent for %v", h.in, h.hash[:4],
+			since.Round(time.Second))
+	}
+
+	return ""
+}
+
 func (r *c08Run) restore() ([4]*lnwallet.LightningChannel, error) {
 	a, b, c, d, err := r.cl.restoreAll()
 
@@ -732,6 +861,9 @@ func (r *c08Run) run() []string {
 			return nil
 		}
 		r.restartHits = append(r.restartHits, c08InFlight(chans))
+		if c08ShiftExposed(chans) {
+			r.shiftExposed = true
+		}
 	}
 
 	// Final phase: everything is armed, wait for quiescence.
@@ -769,6 +901,25 @@ func (r *c08Run) run() []string {
 			}
 		} else {
 			stable = 0
+		}
+		// A node that restarted between its revoke_and_ack and its
+		// commit_sig owes a signature but nothing triggers it until
+		// the next update on that channel (lnd behaviour, liveness
+		// only). Doomed payments in both directions provide that
+		// update.
+		if _, since := r.tap.snapshot(); !ok && since >= r.nudgeIdle &&
+			r.nudges < 3 {
+
+			r.nudges++
+			if err := r.nudge(); err != nil {
+				r.inconclusive = "nudge: " + err.Error()
+				return nil
+			}
+			r.tap.touch()
+		}
+		if s := r.stuckForward(); s != "" {
+			r.stuck = s
+			return []string{s}
 		}
 		if time.Now().After(until) {
 			r.inconclusive = "quiescence deadline: " + r.pendingInfo()
@@ -918,6 +1069,12 @@ func (r *c08Run) oracle(stopped *threeHopNetwork) []string {
 		case c08Success:
 			fee := int64(p.inAmt) - int64(p.plan.Amt)
 			fees += fee
+			if fee < 0 {
+				fail("pay%d: forwarded although the incoming amount "+
+					"%v is below the outgoing amount %v (forwarder "+
+					"out of pocket by %d msat)", p.ix, p.inAmt,
+					p.plan.Amt, -fee)
+			}
 			if p.plan.Dir == 0 {
 				aliceDelta -= int64(p.inAmt)
 				carolDelta += int64(p.plan.Amt)
@@ -1073,12 +1230,6 @@ func c08FwdPkgIssues(chans [4]*lnwallet.LightningChannel) []string {
 						pkg.Height, j, u.UpdateMsg,
 						pkg.SettleFailFilter, pkg.State)
 				}
-			}
-			if pkg.State == channeldb.FwdStateLockedIn &&
-				len(pkg.Adds)+len(pkg.SettleFails) > 0 {
-
-				fail("%s: fwd pkg height %d never processed",
-					names[i], pkg.Height)
 			}
 		}
 	}
@@ -1299,7 +1450,10 @@ func c08Hash(seed [32]byte, tag string, i int) [32]byte {
 	return out
 }
 
+const c08KnownShift = "C08-fwdpkg-index-shift"
+
 type c08Result struct {
+	known        string
 	bad          []string
 	inconclusive string
 	nontrivial   bool
@@ -1341,6 +1495,12 @@ func c08RunCase(t *testing.T, plan *c08Plan) *c08Result {
 		grace: time.Duration(
 			vstats.EnvInt("VERIF_C08_GRACE_S", 30),
 		) * time.Second,
+		stuckIdle: time.Duration(
+			vstats.EnvInt("VERIF_C08_STUCK_IDLE_S", 20),
+		) * time.Second,
+		nudgeIdle: time.Duration(
+			vstats.EnvInt("VERIF_C08_NUDGE_IDLE_MS", 1500),
+		) * time.Millisecond,
 	}
 	for i := range plan.Pays {
 		p := &c08Pay{plan: &plan.Pays[i], ix: i, pid: uint64(1000 + i)}
@@ -1363,6 +1523,14 @@ func c08RunCase(t *testing.T, plan *c08Plan) *c08Result {
 		r.inconclusive = "fixture fatal: " + strings.Join(f, "; ")
 	}
 	res.inconclusive = r.inconclusive
+	if r.shiftExposed && vstats.IsKnown(c08KnownShift) {
+		// Known finding: processRemoteAdds indexes the forwarding
+		// package with positions of the not-yet-acked subset after a
+		// restart. Every later observation of such a case is tainted.
+		res.known = c08KnownShift
+		res.bad = nil
+		res.inconclusive = ""
+	}
 
 	// Evidence.
 	cutsFired := 0
@@ -1397,7 +1565,7 @@ func c08RunCase(t *testing.T, plan *c08Plan) *c08Result {
 		}
 	}
 	res.nontrivial = overlap && (cutsFired > 0 || hits > 0) &&
-		res.inconclusive == ""
+		res.inconclusive == "" && res.known == ""
 
 	lab := []string{
 		fmt.Sprintf("pays=%d", len(plan.Pays)),
@@ -1407,6 +1575,15 @@ func c08RunCase(t *testing.T, plan *c08Plan) *c08Result {
 	}
 	if overlap {
 		lab = append(lab, "overlap")
+	}
+	if r.shiftExposed {
+		lab = append(lab, "fwdpkg_partially_acked_at_restart")
+	}
+	if r.stuck != "" {
+		lab = append(lab, "stuck_forward")
+	}
+	if r.nudges > 0 {
+		lab = append(lab, fmt.Sprintf("nudged=%d", r.nudges))
 	}
 	if res.inconclusive != "" {
 		why := res.inconclusive
@@ -1503,6 +1680,11 @@ func TestVerifC08Atomic(t *testing.T) {
 
 		st.Case(vstats.FP(plan.String()), res.nontrivial, res.labels,
 			res.sample)
+		if res.known != "" {
+			st.Known(res.known)
+			st.Count("excluded_known", 1)
+			return
+		}
 		if len(res.bad) > 0 {
 			rt.Fatalf("C08 violated:\n  %s\nplan:\n%s",
 				strings.Join(res.bad, "\n  "), plan.String())
